@@ -109,6 +109,10 @@ class Ctx:
         rc = 0
         shown = 0
         seen = set()
+        if os.environ.get("VERIF_DUMP_FAILURES"):        # every failure, for tallying by hand
+            with open(os.environ["VERIF_DUMP_FAILURES"], "w") as f:
+                for case, reason in self.failures:
+                    f.write(json.dumps({"case": case, "reason": reason}, default=repr) + "\n")
         for case, reason in self.failures:
             rc = 1
             h = hashlib.sha1(json.dumps(case, sort_keys=True, default=repr).encode()).hexdigest()[:12]
